@@ -29,8 +29,12 @@ def main():
     mism, n = [], 0
     for l in links:
         n += 1
-        try:
-            obj = eval(l['expr'], ns)
+        # an expression over `type(c)` is evaluated for every concept class of the sample lattice (Infimum, Atom, Concept,
+        # Supremum): an override in a subclass means the function under contract is not the one that runs there
+        variants = [dict(ns, c=x) for x in ns['lat']] if 'type(c)' in l['expr'] else [ns]
+        for ns_ in variants:
+          try:
+            obj = eval(l['expr'], ns_)
             fn = getattr(obj, '__func__', obj)
             fn = getattr(fn, 'fget', fn)
             code = fn.__code__
@@ -43,9 +47,12 @@ def main():
             ok_line = code.co_firstlineno <= l['line'] <= code.co_firstlineno + 4
             ok_name = code.co_name == l['name']
             if not (ok_file and ok_line and ok_name):
-                mism.append(dict(l, why='live object is %s:%d %s' % (code.co_filename, code.co_firstlineno, code.co_name)))
-        except Exception as e:
+                mism.append(dict(l, why='live object%s is %s:%d %s' % (
+                    ' for ' + type(ns_['c']).__name__ if len(variants) > 1 else '', code.co_filename, code.co_firstlineno, code.co_name)))
+                break
+          except Exception as e:
             mism.append(dict(l, why='%s: %s' % (type(e).__name__, e)))
+            break
     print(json.dumps({'checked': n, 'mismatches': mism}))
     return 1 if mism else 0
 
